@@ -112,9 +112,11 @@ def writeGroups (date : Str) (keep : List Target) (line : Target → Str) (t : T
 def updateFileGitignores (rules : List Pattern) (date : Str) (files : List Target) (t : Tree) : Tree :=
   writeGroups date (files.filter (fun f => check rules f.pathStr == .noMatch)) (fun f => '/' :: f.name) t
 
-/-- `update_dir_gitignores`: the directory is checked with a trailing slash, the line is `/name/` -/
+/-- `update_dir_gitignores`: the line is `/name/`.  The directory is checked **without** a trailing
+    slash: `dir.ends_with("/")` is a component-wise test of `RelativePath` that always holds, so the
+    branch `xvc_root.join(dir.to_string())` is taken and the other one (which appends `/`) is dead. -/
 def updateDirGitignores (rules : List Pattern) (date : Str) (dirs : List Target) (t : Tree) : Tree :=
-  writeGroups date (dirs.filter (fun d => check rules (d.pathStr ++ ['/']) == .noMatch)) (fun d => '/' :: d.name ++ ['/']) t
+  writeGroups date (dirs.filter (fun d => check rules d.pathStr == .noMatch)) (fun d => '/' :: d.name ++ ['/']) t
 
 /-- xvc's view of the `.gitignore` files: `build_gitignore(xvc_root)` -/
 def gitRules (t : Tree) : List Pattern := allRules t
@@ -123,6 +125,11 @@ def gitRules (t : Tree) : List Pattern := allRules t
 def trackUpdate (date : Str) (dirs files : List Target) (t : Tree) : Tree :=
   let t1 := updateDirGitignores (gitRules t) date dirs t
   updateFileGitignores (gitRules t1) date files t1
+
+/-- the tail of `cmd_move` for files that are renamed in the workspace (copy → copy), with
+    patches/C16-move.patch: `update_file_gitignores(build_gitignore(root), renamed destinations)` -/
+def moveUpdate (date : Str) (files : List Target) (t : Tree) : Tree :=
+  updateFileGitignores (gitRules t) date files t
 
 /-- `make_ignore_handler` (recheck, copy, move, carry-in, untrack, bring): operations are collected
     (deduplicated, pre-filtered with the initial rules — directories *without* trailing slash), then
